@@ -95,6 +95,8 @@ class C12(InvProp):
             c = _GI2.linked_inventory(Rng(seed, "C12:linked", j))
             c["repeat"] = 1
             yield c
+        for j in range(12 if tier == "quick" else 150):
+            yield _GI2.broken_file_among_good(Rng(seed, "C12:broken", j))
         N = 60 if tier == "quick" else 400
         for i in range(N):
             r = Rng(seed, "C12", i)
